@@ -31,8 +31,12 @@ func runC01(c *Ctx) {
 	explicitPanics(c, "R5")
 	divisionGuards(c, "R6")
 	indexGuards(c, "R6")
+	repeatGuards(c, "R6")
 	payloadUnderTag(c, "R7")
 	cliExitDiscipline(c, "R8")
+	if es := c.P.LangFunc("(*Evaluator).evalStatement"); es != nil {
+		c.shared("R10", "C07/R7", "for-in over an array iterates with Go's range over the array value taken at loop entry (bounds-safe by construction): an index loop with a hoisted length panics when the body shrinks the array", keyHas("for-in ValueArray"), func(s *Ctx) { c07ForIn(s, es) })
+	}
 	c.shared("R9", "C08/R3", "runaway recursion ends in an error, not in a Go stack overflow: every frame pushed on another one is one deeper, and the depth test precedes the push", keyHas("depth"), func(s *Ctx) { c08R3(s, discoverFrameModel(s.P), "R3") })
 }
 
